@@ -432,6 +432,19 @@ pub fn run(opts: &Opts) -> Report {
         queue_exec(&mut rep, &mut pending, &c.src, c.binds_variant);
         rep.count(Some(&format!("{}|{}", c.src, c.binds_variant)));
     }
+    // dyn-wrapped operands: one truthiness, also for a value the caller wrapped as a dyn value
+    {
+        use crate::facets::dynwrap as dw;
+        let mut vals = dw::scalars();
+        vals.extend(dw::containers());
+        dw::transparency(
+            &mut rep,
+            "truthiness",
+            &["a ? 1 : 0", "!a", "a || false", "false || a", "a && true", "true && a", "[a].filter(v, v).size()", "[a].all(v, v)", "[a].exists(v, v)", "[a].exists_one(v, v)", "[a].map(v, v, 1).size()", "bool(a)"],
+            &vals,
+            &[CelValue::Null],
+        );
+    }
     rep.compare_with_model(&opts.driver, &pending);
     rep
 }
